@@ -240,6 +240,7 @@ func runC05(c *Checker) {
 	ruleRETRY(c)
 	ruleCallbackLocks(c, "DUPLEX")
 	ruleHandshakeDeadline(c, "WRAP")
+	ruleTransport(c, "FRAME", "RETRY", "FRESH")
 	ruleDeadlineMapping(c, "WRAP")
 	ruleDUPLEX(c)
 	// LAYERS: the end-to-end statement is the composition of the layers below; it fails as soon as
@@ -349,6 +350,7 @@ func runC11(c *Checker) {
 	// recover: the mailboxes are re-created and the streams re-opened on every attempt (RETRY, as C05)
 	ruleRETRY(c)
 	ruleAcceptRetryable(c)
+	ruleTransport(c, "FRESH", "RETRY", "FRESH")
 	// ... and the per-direction mutexes of a connection being released: Refresh takes them, so a
 	// callback that returned holding one blocks the next Accept/Dial for ever (LOCKBAL, as C05)
 	ruleLOCKBAL(c, targetMbox)
